@@ -174,6 +174,9 @@ pub trait ExDrawTarget: embedded_graphics_core::geometry::Dimensions {
         requires old(self).dt_wf(), rect_valid(*area), area.size.width * area.size.height < 0x1_0000_0000;
 }
 
+/// `Result::and` evaluates its argument eagerly (it is an ordinary call) and keeps the first error
+pub assume_specification<T, E, U> [Result::<T, E>::and] (a: Result<T, E>, b: Result<U, E>) -> (r: Result<U, E>)
+    ensures r == (match a { Ok(_) => b, Err(e) => Err::<U, E>(e) });
 pub assume_specification [i32::abs_diff] (a: i32, b: i32) -> (r: u32)
     ensures r as int == (if a >= b { a - b } else { b - a });
 /// R24: `n.try_into().unwrap()` for u32 -> usize; cannot fail where usize has at least 32 bits (here: 64, `global size_of usize == 8`)
